@@ -778,7 +778,12 @@ func c17mfOkDep(m, v string) (ok bool) {
 		}
 	}()
 	mv, err := module.NewVersion(m, v)
-	return err == nil && mv.Path() == m
+	if err != nil || mv.Path() != m {
+		return false
+	}
+	// the per-dependency part of File.Init (strict), asked of the implementation itself so
+	// that the verdict follows the code (e.g. whether an empty version is acceptable)
+	return (&modfile.File{Module: "verif.test/main@v0", Deps: map[string]*modfile.Dep{m: {Version: v}}}).Init() == nil
 }
 
 // c17mfOracle computes the library verdicts the model takes as trusted parameters.
@@ -890,6 +895,10 @@ func c17mfMissing(in, out *c17mfVal, path []string) string {
 				inDep := len(path) == 2 && path[0] == "deps"
 				switch {
 				case len(path) == 0 && k == "deps" && v.kind == 'o' && len(v.keys) == 0:
+					continue
+				case len(path) == 0 && k == "description" && v.kind == 's' && v.s == "":
+					// the zero value, like an absent field (only matters once File has
+					// a Description field; without one every description is dropped)
 					continue
 				case inDep && k == "default" && v.kind == 'b' && !v.b:
 					continue
